@@ -22,6 +22,7 @@ RULES = {
              'replicate_count == ack_count',
     'C15.d': 'no fetch_sub / store on ack_count or replicate_count anywhere',
     'C15.e': 'the Acknowledge arm passes the request\'s opp_id and server_name to the acknowledge function',
+    'C15.g': 'a node signs its acknowledgements with the same Databases field it names itself with in its other node-to-node messages (sibling agreement over every command-word template that carries a String field of Databases): an ack signed with another name is a foreign acknowledgement on the primary and is never counted',
 }
 
 PENDING = 'std::collections::HashMap::<u64, nundb::bo::ReplicationMessage>::'
